@@ -3,7 +3,7 @@
 (* unknowing processes.  Serves C10, C13, C19, C07, C08, C01, C02, C11.     *)
 EXTENDS MCGen
 OpsV == {"GoNew", "Sentinel", "CtxDeadline", "Errno", "New", "Newf", "NewfW", "PkgNew", "Unimplemented",
-         "AssertionFailedf", "ULeaf", "Wrap", "Wrapf", "WithMessage", "WithStack", "WithHint",
+         "AssertionFailedf", "ULeaf", "Wrap", "Wrapf", "WithMessage", "WithMessagef", "WithHintf", "WithDetailf", "UnimplementedErrorf",  "WithStack", "WithHint",
          "WithDetail", "WithSafeDetails", "WithTelemetry", "WithDomain", "WithIssueLink",
          "WithContextTags", "WithAssertionFailure", "Mark", "WithSecondaryError", "CombineErrors",
          "Handled", "Opaque", "HandledWithMessage", "HandledInDomain", "EnsureNotInDomain", "HandledInDomainWithMessage",
